@@ -40,6 +40,15 @@ PROPS = {
                                   "checks run on an optimised build with debug assertions and overflow checks on, child stack 2 MiB"],
         timeout={"quick": 1800, "thorough": 7200},
     ),
+    "C04": dict(
+        built=True, level="exploration", design_ref="4/C04",
+        technique="runtime monitor: full scripted-peer admission grid through the production handshake (hook H2) compared with a reference admission predicate; follow-up monitors for usability, single registration, release and silence of rejected connections; all 12x12 compatible() queries under catch_unwind",
+        rule="grid = local type(9) x peer Socket-Type(12 names, unknown, missing) x version(5) x mechanism(4) x signature(3) x identity(5) x first item(3) = 113 400 scripted peers, enumerated completely in both tiers (thorough repeats it byte-at-a-time and with the READY split); follow-up exchange on every admitted point and a seeded 10% (quick) / all (thorough) of the rejected ones; every grid point is non-trivial (a distinct handshake actually executed); distinct by grid coordinates",
+        text="The stated finite grid is executed exhaustively against the real handshake code and each outcome compared with the reference predicate; behaviour outside the grid values (other versions, other malformed inputs) is covered by C03, not here.",
+        note="trusted: reference predicate and RFC compatibility table in harness/src/props/c04.rs",
+        assumptions=SIM_ASSUME + ["duplicate identities are not generated (the statement is silent on them)", "PLAIN and CURVE greetings count as 'known mechanism' and are expected to be admitted"],
+        exhaustive={"quick": True, "thorough": True},
+    ),
     "C19": dict(
         built=True, level="exploration", design_ref="4/C19",
         technique="runtime differential monitor: library parser vs independent reference parser over exhaustive small-alphabet strings, grammar-based and random Unicode strings; panic, accept/reject, classification and round-trip oracles",
@@ -100,4 +109,4 @@ def write_manifest(path):
 
 
 HOOK_COMMITS = ["c9656b6"]
-FIX_COMMITS = ["48acad6", "f3d84e9", "be9d015", "f1a8fb7"]
+FIX_COMMITS = ["48acad6", "f3d84e9", "be9d015", "f1a8fb7", "1cfb825"]
